@@ -34,6 +34,8 @@ def load_registry():
     reg = {}
     hdir = os.path.join(VERIF, "harness")
     for crate in sorted(os.listdir(hdir)):
+        if crate.startswith("_"):
+            continue
         f = os.path.join(hdir, crate, "harnesses.json")
         if not os.path.exists(f):
             continue
@@ -314,10 +316,18 @@ def native_replay(crate, harness, tests, release=False):
     """Copy the harness crate to a scratch dir, append the generated unit tests to the module
     of the harness, run `cargo kani playback`. Returns (reproduced: bool|None, log_path, names)."""
     src = os.path.join(VERIF, "harness", crate)
-    work = os.path.join(TARGET, "replay_work", crate)
+    # sibling of the harness crate so that relative path dependencies keep resolving
+    work = os.path.join(VERIF, "harness", "_replay_" + crate)
     if os.path.exists(work):
         shutil.rmtree(work)
-    shutil.copytree(src, work, ignore=shutil.ignore_patterns("target", "Cargo.lock"))
+    shutil.copytree(src, work, ignore=shutil.ignore_patterns("target", "Cargo.lock", "harnesses.json"))
+    # native replay runs against the REAL environment: the real `bytes` crate instead of the
+    # model (and, since #[kani::stub] is inert outside verification, the real String::from_utf8)
+    ct = os.path.join(work, "Cargo.toml")
+    txt = open(ct).read()
+    txt2 = re.sub(r'bytes\s*=\s*\{[^}]*shims/bytes[^}]*\}', 'bytes = "1"', txt)
+    if txt2 != txt:
+        open(ct, "w").write(txt2)
     lock = os.path.join(REPO, "Cargo.lock")
     if os.path.exists(lock):
         shutil.copyfile(lock, os.path.join(work, "Cargo.lock"))
@@ -450,7 +460,10 @@ def check(pid, tier, only=None, jobs=None):
     violations = []
     known_hits = []
     inconclusive = []
-    for h, i in all_info.items():
+    extra_fails = []
+    # cheapest failing harness first, so the replayed one is the quickest to reproduce
+    order = sorted(all_info.items(), key=lambda kv: (kv[1].get("duration_s") or 0))
+    for h, i in order:
         if i["verdict"] == "pass":
             continue
         if i["verdict"] == "inconclusive":
@@ -462,7 +475,13 @@ def check(pid, tier, only=None, jobs=None):
                 known_hits.append((h, k))
             i["verdict"] = "known-finding"
             continue
-        # unknown failure: replay natively before reporting
+        # unknown failure: replay natively before reporting (at most MAX_REPLAYS reproduced
+        # violations are replayed per run; further solver failures are reported as such)
+        if len(violations) >= int(os.environ.get("VERIF_MAX_REPLAYS", "1")):
+            i["verdict"] = "fail-unreplayed"
+            i["reason"] = "counterexample (replay skipped: another violation of this run already reproduced)"
+            extra_fails.append(h)
+            continue
         hm = hmeta[h]
         tests, pblog = extract_playback(hm["crate"], h, hm["flags"], hm.get("timeout", 600), hm.get("mem_gb", 16))
         rdir = os.path.join(VERIF, "replay", pid)
@@ -500,7 +519,7 @@ def check(pid, tier, only=None, jobs=None):
             inconclusive.append((h, i["reason"] + f" (see {pblog})"))
 
     # ---- evidence
-    decided = [i for i in all_info.values() if i["verdict"] in ("pass", "fail", "known-finding")]
+    decided = [i for i in all_info.values() if i["verdict"] in ("pass", "fail", "fail-unreplayed", "known-finding")]
     nontrivial = [i for i in all_info.values()
                   if i["verdict"] in ("pass", "known-finding") and i["covers_total"] > 0
                   and i["covers_satisfied"] == i["covers_total"] and i["checks_total"] > 0]
@@ -557,6 +576,8 @@ def check(pid, tier, only=None, jobs=None):
     if violations:
         for h, rpath in violations:
             log(f"VIOLATION property={pid} replay={rpath}")
+        for h in extra_fails:
+            log(f"  also failed (solver counterexample, not replayed): {h}")
         rc = 1
     elif inconclusive:
         for h, r in inconclusive:
